@@ -143,6 +143,10 @@ func c07Scenarios(tier string) []e1lib.Scenario {
 					for m := 0; m < 1<<k; m++ {
 						for _, rd := range []string{"reader", "stderr"} {
 							add(stage.Cfg{Stage: st, Mode: mode, K: k, Cap: cp, Mask: m << 1, ErrRd: rd, Stop: -1})
+							if cp <= 1 && k >= 1 {
+								// a context that can never be cancelled (Done() is nil): the error modes do not depend on the context
+								add(stage.Cfg{Stage: st, Mode: mode, K: k, Cap: cp, Mask: m << 1, ErrRd: rd, Stop: -1, Background: true})
+							}
 						}
 					}
 				}
@@ -193,6 +197,10 @@ func c07Scenarios(tier string) []e1lib.Scenario {
 					add(stage.Cfg{Stage: "emit", Mode: "lift", Cap: cp, Mask: m, ErrRd: rd, Stop: -1, Interval: -1}) // frequency 0: no pacing
 					add(stage.Cfg{Stage: "emit", Mode: "lift", Cap: cp, Mask: m, ErrRd: rd, Stop: -1})
 					add(stage.Cfg{Stage: "unfold", Mode: "lift", Cap: cp, Mask: m << 1, ErrRd: rd, Stop: -1})
+					if cp <= 1 {
+						add(stage.Cfg{Stage: "emit", Mode: "lift", Cap: cp, Mask: m, ErrRd: rd, Stop: -1, Interval: -1, Background: true})
+						add(stage.Cfg{Stage: "unfold", Mode: "lift", Cap: cp, Mask: m << 1, ErrRd: rd, Stop: -1, Background: true})
+					}
 				}
 				for ca := 1; ca <= 2; ca++ {
 					if tier == "quick" && ca == 2 && cp == 2 {
